@@ -534,7 +534,21 @@ func (x *Exec) invoke(st *State, fr *Frame, site ssa.Instruction, c *ssa.CallCom
 	m := c.Method
 	rt := c.Value.Type()
 	tn := typeKey(rt)
-	x.atCallAsserts(st, fr, "("+tn+")."+m.Name(), nil, append([]Val{recv}, args...), where)
+	{
+		isig := m.Type().(*types.Signature)
+		pn := []string{"this"}
+		for i := 0; i < isig.Params().Len(); i++ {
+			n := isig.Params().At(i).Name()
+			if n == "" || n == "_" {
+				n = fmt.Sprintf("p%d", i)
+			}
+			pn = append(pn, n)
+		}
+		callee := "(" + tn + ")." + m.Name()
+		all0 := append([]Val{recv}, args...)
+		x.atCallAsserts(st, fr, callee, pn, all0, where)
+		k = x.withGhostSets(fr, callee, pn, all0, isig.Results(), k)
+	}
 	// devirtualisation: the dynamic type is known (the interface was made from a
 	// concrete value in this function or an inlined caller)
 	if dt := x.E.dynamicType(recv); dt != nil && isRefLike(dt) {
